@@ -524,6 +524,8 @@ pub fn check(p: &dyn Property, tier: Tier, seed: u64) -> i32 {
     let mut children: Vec<Option<std::process::Child>> = Vec::new();
     // per worker: (current S idx, time of S)
     let mut cur: Vec<Option<(u64, Instant)>> = vec![None; nw];
+    // (run index, CPU seconds of the worker when the watchdog first saw that run)
+    let mut cur_cpu: Vec<(u64, f64)> = vec![(u64::MAX, 0.0); nw];
     let mut finished = vec![false; nw];
     let mut killed = vec![false; nw];
     let mut last_x: Vec<Option<String>> = vec![None; nw];
@@ -673,10 +675,22 @@ pub fn check(p: &dyn Property, tier: Tier, seed: u64) -> i32 {
             Err(mpsc::RecvTimeoutError::Timeout) => {}
             Err(_) => break,
         }
-        // hang watchdog
+        // hang watchdog.  A run is hung when it has burnt more CPU than the limit, or when it has
+        // taken longer than the limit stretched by how oversubscribed the machine is (a busy
+        // machine must not turn a slow run into an alarm).
+        let stretch = {
+            let load = std::fs::read_to_string("/proc/loadavg").ok().and_then(|s| s.split_whitespace().next().and_then(|x| x.parse::<f64>().ok())).unwrap_or(0.0);
+            let cpus = std::thread::available_parallelism().map(|n| n.get()).unwrap_or(1) as f64;
+            (2.0 * load / cpus).max(1.0)
+        };
         for w in 0..nw {
             if let Some((idx, since)) = cur[w] {
-                if since.elapsed() > hang_limit {
+                let cpu_now = children[w].as_ref().map(|c| proc_cpu_seconds(c.id())).unwrap_or(0.0);
+                if cur_cpu[w].0 != idx {
+                    cur_cpu[w] = (idx, cpu_now);
+                }
+                let cpu_used = cpu_now - cur_cpu[w].1;
+                if cpu_used > hang_limit.as_secs_f64() || since.elapsed().as_secs_f64() > hang_limit.as_secs_f64() * stretch {
                     if killed[w] {
                         continue;
                     }
@@ -686,7 +700,7 @@ pub fn check(p: &dyn Property, tier: Tier, seed: u64) -> i32 {
                     killed[w] = true;
                     agg.violations.push(json!({
                         "idx": idx, "sub": Value::Null, "fingerprint": "hang",
-                        "clause": "G3 bounded steps", "detail": { "wall_s": since.elapsed().as_secs() }, "crash": true,
+                        "clause": "G3 bounded steps", "detail": { "wall_s": since.elapsed().as_secs(), "cpu_s": cpu_used as u64, "limit_s": hang_limit.as_secs(), "load_stretch": (stretch * 10.0).round() / 10.0 }, "crash": true,
                     }));
                     cur[w] = Some((idx, Instant::now())); // Eof handler will restart
                 }
@@ -699,6 +713,17 @@ pub fn check(p: &dyn Property, tier: Tier, seed: u64) -> i32 {
     }
 
     finish(p, tier, seed, total, agg, t0)
+}
+
+/// CPU seconds (user + system, own and waited-for children) of process `pid`
+fn proc_cpu_seconds(pid: u32) -> f64 {
+    let Ok(s) = std::fs::read_to_string(format!("/proc/{pid}/stat")) else { return 0.0 };
+    // fields after the command name in parentheses
+    let Some(rest) = s.rsplit_once(')').map(|x| x.1) else { return 0.0 };
+    let f: Vec<&str> = rest.split_whitespace().collect();
+    // utime stime cutime cstime are fields 14-17 of the line, i.e. 11-14 after the ')'
+    let ticks: f64 = (11..15).filter_map(|i| f.get(i).and_then(|x| x.parse::<f64>().ok())).sum();
+    ticks / 100.0
 }
 
 fn write_replay(meta: &Meta, tier: Tier, seed: u64, v: &Value) -> String {
